@@ -1,7 +1,9 @@
 ----------------------------- MODULE AdminSpread -----------------------------
 (* C19, leader- / coordinator-bound half: DeleteRecords (admin.go 551-598),
    DescribeConsumerGroups (788-810), ListConsumerGroupOffsets (857-875) and
-   DeleteConsumerGroup (877-902) as one state machine.
+   DeleteConsumerGroup (877-902), and DescribeLogDirs (904-947: the items are the brokers
+   asked, every one of them gets its own request in its own goroutine, the answers are
+   merged into one map keyed by broker id) as one state machine.
 
    Items are the partitions 0..2 of the topic (DeleteRecords, ListConsumerGroupOffsets) or
    the groups 0..2 (DescribeConsumerGroups; DeleteConsumerGroup has the single group 0).
@@ -33,9 +35,9 @@ VARIABLES op, kv, own, itemv, bfault,     \* the case
 vars == <<op, kv, own, itemv, bfault, pc, todo, anyErr, seen, reqs, res>>
 
 SKvQuick == [DeleteRecords |-> {2, 5}, ListConsumerGroupOffsets |-> {0, 1, 5}, DescribeConsumerGroups |-> {1, 4},
-             DeleteConsumerGroup |-> {4, 5}]
+             DeleteConsumerGroup |-> {4, 5}, DescribeLogDirs |-> {3, 5}]
 SKvFull == [DeleteRecords |-> {2, 3, 4, 5}, ListConsumerGroupOffsets |-> {0, 1, 2, 3, 4, 5},
-            DescribeConsumerGroups |-> {0, 1, 2, 3, 4, 5}, DeleteConsumerGroup |-> {4, 5}]
+            DescribeConsumerGroups |-> {0, 1, 2, 3, 4, 5}, DeleteConsumerGroup |-> {4, 5}, DescribeLogDirs |-> {3, 4, 5}]
 
 ItemErrQuick == {3}
 ItemErrThorough == {-1, 3}
@@ -49,23 +51,25 @@ ReqVersion(o, k) == IF o = "ListConsumerGroupOffsets" THEN (IF k >= 1 THEN 2 ELS
 Init ==
   /\ op \in SpreadOps
   /\ kv \in SKvs[op]
-  /\ own \in [ItemsOf(op) -> Brokers]
-  /\ op = "ListConsumerGroupOffsets" => \A i, j \in ItemsOf(op) : own[i] = own[j]
-  /\ itemv \in [ItemsOf(op) -> {0} \cup ItemErrCodes]
+  /\ IF op = "DescribeLogDirs"
+     THEN \E S \in (SUBSET Brokers) \ {{}} : own = [i \in S |-> i]      \* the items ARE the brokers asked
+     ELSE own \in [ItemsOf(op) -> Brokers]
+  /\ op = "ListConsumerGroupOffsets" => \A i, j \in DOMAIN own : own[i] = own[j]
+  /\ itemv \in [DOMAIN own -> {0} \cup ItemErrCodes]
   /\ bfault \in [Brokers -> {"none", "conn", "inc"}]
   /\ Cardinality({b \in Brokers : bfault[b] # "none"}) <= 1
-  /\ \A b \in Brokers : bfault[b] # "none" => \E i \in ItemsOf(op) : own[i] = b
+  /\ \A b \in Brokers : bfault[b] # "none" => \E i \in DOMAIN own : own[i] = b
   /\ \A b \in Brokers : bfault[b] = "inc" => op \in IncOps
   /\ pc = "plan" /\ todo = {} /\ anyErr = FALSE /\ seen = {}
-  /\ reqs = <<>> /\ res = [cls |-> "-", code |-> 0, reported |-> {}]
+  /\ reqs = <<>> /\ res = [cls |-> "-", code |-> 0, reported |-> {}, filed |-> {}]
 
 Plan ==
   /\ pc = "plan"
-  /\ todo' = {own[i] : i \in ItemsOf(op)}
+  /\ todo' = {own[i] : i \in DOMAIN own}
   /\ pc' = "send"
   /\ UNCHANGED <<op, kv, own, itemv, bfault, anyErr, seen, reqs, res>>
 
-ItemsAt(b) == {i \in ItemsOf(op) : own[i] = b}
+ItemsAt(b) == {i \in DOMAIN own : own[i] = b}
 Bad(S) == {i \in S : itemv[i] # 0}
 Ret(r) == pc' = "done" /\ res' = r
 
@@ -82,26 +86,35 @@ Send(b) ==
                /\ UNCHANGED <<pc, res>>
           [] op = "DescribeConsumerGroups" ->
                IF ans = "conn"
-               THEN Ret([cls |-> "other", code |-> 0, reported |-> {}]) /\ UNCHANGED <<anyErr, seen>>
+               THEN Ret([cls |-> "other", code |-> 0, reported |-> {}, filed |-> {}]) /\ UNCHANGED <<anyErr, seen>>
                ELSE seen' = seen \cup its /\ UNCHANGED <<pc, res, anyErr>>
+          [] op = "DescribeLogDirs" ->      \* one goroutine per broker; an error goes to errChan, an answer into the map
+               /\ anyErr' = (anyErr \/ ans # "items")
+               /\ seen' = (IF ans = "items" THEN seen \cup its ELSE seen)
+               /\ UNCHANGED <<pc, res>>
           [] op = "ListConsumerGroupOffsets" ->
                /\ UNCHANGED <<anyErr, seen>>
                /\ IF ans = "conn"
-                  THEN Ret([cls |-> "other", code |-> 0, reported |-> {}])
-                  ELSE Ret([cls |-> "nil", code |-> 0, reported |-> Bad(its)])
+                  THEN Ret([cls |-> "other", code |-> 0, reported |-> {}, filed |-> {}])
+                  ELSE Ret([cls |-> "nil", code |-> 0, reported |-> Bad(its), filed |-> {}])
           [] op = "DeleteConsumerGroup" ->
                /\ UNCHANGED <<anyErr, seen>>
-               /\ IF ans = "conn" THEN Ret([cls |-> "other", code |-> 0, reported |-> {}])
-                  ELSE IF ans = "inc" THEN Ret([cls |-> "incomplete", code |-> 0, reported |-> {}])
-                  ELSE IF Bad(its) # {} THEN Ret([cls |-> "kerr", code |-> itemv[0], reported |-> {}])
-                  ELSE Ret([cls |-> "nil", code |-> 0, reported |-> {}])
+               /\ IF ans = "conn" THEN Ret([cls |-> "other", code |-> 0, reported |-> {}, filed |-> {}])
+                  ELSE IF ans = "inc" THEN Ret([cls |-> "incomplete", code |-> 0, reported |-> {}, filed |-> {}])
+                  ELSE IF Bad(its) # {} THEN Ret([cls |-> "kerr", code |-> itemv[0], reported |-> {}, filed |-> {}])
+                  ELSE Ret([cls |-> "nil", code |-> 0, reported |-> {}, filed |-> {}])
   /\ UNCHANGED <<op, kv, own, itemv, bfault>>
 
 Finish ==
   /\ pc = "send" /\ todo = {}
   /\ IF op = "DeleteRecords"
-     THEN Ret(IF anyErr THEN [cls |-> "agg", code |-> 0, reported |-> {}] ELSE [cls |-> "nil", code |-> 0, reported |-> {}])
-     ELSE Ret([cls |-> "nil", code |-> 0, reported |-> Bad(seen)])
+     THEN Ret(IF anyErr THEN [cls |-> "agg", code |-> 0, reported |-> {}, filed |-> {}] ELSE [cls |-> "nil", code |-> 0, reported |-> {}, filed |-> {}])
+     ELSE IF op = "DescribeLogDirs"
+     THEN \* the first error of errChan if any; the answers received are in the map either way,
+          \* each under the id of the broker that gave it
+          Ret([cls |-> (IF anyErr THEN "other" ELSE "nil"), code |-> 0, reported |-> Bad(seen),
+               filed |-> {<<i, i>> : i \in seen}])
+     ELSE Ret([cls |-> "nil", code |-> 0, reported |-> Bad(seen), filed |-> {}])
   /\ UNCHANGED <<op, kv, own, itemv, bfault, todo, anyErr, seen, reqs>>
 
 Next == Plan \/ (\E b \in Brokers : Send(b)) \/ Finish
